@@ -162,29 +162,38 @@ class CellWrapper:
             last_adapted_col = col
 
         # Fit columns into available width
+        remaining_columns = len(
+            [length for length in long_column_lengths if length is not None]
+        )
+
         for col, length in enumerate(long_column_lengths):
             if length is None:
                 continue
 
-            # Keep ratios of column lengths and distribute them among the
-            # available width
-            self._column_lengths[col] = int(
-                round((length / actual_width) * available_width)
-            )
+            remaining_columns -= 1
 
             if col == last_adapted_col:
-                # Fix rounding errors
-                self._column_lengths[col] += self._max_total_width - sum(
-                    self._column_lengths
+                # The last column gets what is left (this also fixes rounding errors)
+                column_length = available_width
+            else:
+                # Keep ratios of column lengths and distribute them among the
+                # available width, leaving at least one character for each
+                # of the remaining columns
+                column_length = int(round((length / actual_width) * available_width))
+                column_length = max(
+                    1, min(column_length, available_width - remaining_columns)
                 )
+
+            self._column_lengths[col] = column_length
 
             self._wrap_column(col, self._column_lengths[col], formatter)
 
             # Recalculate the column length based on the actual wrapped length
             self._refresh_column_length(col)
 
-            # Recalculate the actual width based on the changed length.
-            actual_width = actual_width - length + self._column_lengths[col]
+            # Distribute the remaining width among the remaining columns
+            actual_width -= length
+            available_width -= self._column_lengths[col]
 
         self._total_width = sum(self._column_lengths)
 
